@@ -9,6 +9,7 @@ package c18
 import (
 	"bytes"
 	"context"
+	"encoding/binary"
 	"errors"
 	"fmt"
 	"os"
@@ -44,12 +45,24 @@ const keyBTOverwrite = "c18-blocktransactions-resume-overwrites-migrated-range"
 // one: the current accessors answer "key not found" instead of an empty list (witness and description: known_test.go).
 const keyEmptyGap = "c18-blocktransactions-empty-blocks-left-without-entry"
 
+// Known finding: a resume checkpoint of the history-prune migration's stager that outlives a later lifetime which
+// completed the migration's work (scratch namespace wiped) but died before the runner recorded it as applied makes the
+// next lifetime re-stage only the blocks above the checkpoint and then wipe the live history buckets: the state history
+// of the retained blocks below the checkpoint is lost (witness and description: known_test.go).
+const keyPruneStaleStager = "c18-historyprunner-stale-stager-checkpoint-loses-retained-history"
+
 type flags struct {
-	prune    bool // --prune (history pruner, optional, index 1)
-	newState bool // --new-state (head-state consolidation, optional, index 2)
+	prune    bool   // --prune-mode given (history pruner, optional, index 1)
+	newState bool   // --new-state (head-state consolidation, optional, index 2)
+	retained uint64 // value of --prune-mode: blocks retained below the pivot (constant over a case; 0 when prune is off)
 }
 
-func (f flags) String() string { return fmt.Sprintf("prune=%v,new-state=%v", f.prune, f.newState) }
+func (f flags) String() string {
+	if f.prune {
+		return fmt.Sprintf("prune=true(retain %d),new-state=%v", f.retained, f.newState)
+	}
+	return fmt.Sprintf("prune=%v,new-state=%v", f.prune, f.newState)
+}
 
 // ev is one call observed by a tracked migrator.
 type ev struct {
@@ -90,7 +103,8 @@ func realRegistry(fl flags, tr *trace) *migration.Registry {
 	tk := func(i int, m migration.Migration) migration.Migration { return &tracked{idx: i, inner: m, tr: tr} }
 	return migration.NewRegistry().
 		With(tk(idxBlockTransactions, &blocktransactions.Migrator{})).
-		WithOptional(tk(idxHistoryPruner, historyprunner.New(0, 0)), fl.prune, "prune").
+		// minAge = 0: the wall clock never decides what is pruned
+		WithOptional(tk(idxHistoryPruner, historyprunner.New(fl.retained, 0)), fl.prune, "prune").
 		WithOptional(tk(idxHeadState, &headstate.Migrator{}), fl.newState, "new-state").
 		With(tk(idxStateDiffLength, &statedifflength.Migrator{}))
 }
@@ -107,6 +121,16 @@ type run struct {
 	runErr       error
 	cancelled    bool // the injected cancellation fired
 	crashed      bool // the injected crash fired
+}
+
+// entered reports whether the runner handed control to migration idx in this lifetime.
+func (r *run) entered(idx int) bool {
+	for _, e := range r.tr.evs {
+		if e.kind == "before" && e.idx == idx {
+			return true
+		}
+	}
+	return false
 }
 
 var nopLogger = log.NewNopZapLogger()
@@ -165,7 +189,8 @@ type reference struct {
 	stageCommits map[int]int   // commits made inside Migrate(idx)
 	commitsOf    map[int][]int // commit numbers made inside Migrate(idx); key -1: runner bookkeeping
 	opsOf        map[int][2]int
-	stages       []int // migrations that ran, ascending
+	stages       []int  // migrations that ran, ascending
+	floor        uint64 // retention floor of the reference image
 }
 
 type realCase struct {
@@ -197,19 +222,29 @@ func (k *realCase) reference(fl flags) *reference {
 	if len(inter) != 0 {
 		c.Violation("stale-intermediate-state", "uninterrupted Run(%s) left intermediate states %v", fl, inter)
 	}
+	pruned := r.entered(idxHistoryPruner)
+	floor := k.retention(img, pruned, fl.retained, fmt.Sprintf("uninterrupted Run(%s)", fl))
 	for _, idx := range []int{idxBlockTransactions, idxHeadState, idxStateDiffLength} {
 		if md.CurrentVersion.Has(uint8(idx)) {
-			if msg := o.postcondition(idx, img); msg != "" {
-				c.Violation(fmt.Sprintf("postcondition-%d", idx), "after the uninterrupted upgrade (%s) of a %s DB with %d blocks (pruned %d): %s", fl, o.shape, len(o.blocks), o.pruned, msg)
+			if msg := o.postconditionFrom(idx, img, floor, true); msg != "" {
+				c.Violation(fmt.Sprintf("postcondition-%d", idx), "after the uninterrupted upgrade (%s) of a %s DB with %d blocks (pruned %d, L1 head %s, floor now %d): %s", fl, o.shape, len(o.blocks), o.pruned, o.l1Desc(), floor, msg)
 			}
 		}
 	}
-	// the whole Reader API answers exactly as on the database written natively by the current Store path
-	obs := node.New(false, img.Copy(), k.net).Observe(o.ids)
-	if d := node.Diff(o.nativeObs, obs, 3); len(d) > 0 {
-		c.Violation("reader-api-differs", "after the uninterrupted upgrade (%s) of a %s DB with %d blocks (pruned %d) the Reader API differs from the natively written database:\n%s", fl, o.shape, len(o.blocks), o.pruned, strings.Join(d, "\n"))
+	if pruned {
+		// the history-prune migration ran: every answer about a retained block equals the natively written (unpruned)
+		// database's, answers about blocks below the floor are "missing" or the original
+		if d := o.readerAPIAboveFloor(img, floor, 3); len(d) > 0 {
+			c.Violation("reader-api-differs", "after the uninterrupted upgrade (%s) of a %s DB with %d blocks (L1 head %s, floor now %d) the Reader API differs from the natively written database:\n%s", fl, o.shape, len(o.blocks), o.l1Desc(), floor, strings.Join(d, "\n"))
+		}
+	} else {
+		// the whole Reader API answers exactly as on the database written natively by the current Store path
+		obs := node.New(false, img.Copy(), k.net).Observe(o.ids)
+		if d := node.Diff(o.nativeObs, obs, 3); len(d) > 0 {
+			c.Violation("reader-api-differs", "after the uninterrupted upgrade (%s) of a %s DB with %d blocks (pruned %d) the Reader API differs from the natively written database:\n%s", fl, o.shape, len(o.blocks), o.pruned, strings.Join(d, "\n"))
+		}
 	}
-	ref := &reference{dump: node.Dump(img), commits: r.f.commits, ops: r.f.ops, stageCommits: map[int]int{}, commitsOf: map[int][]int{}, opsOf: r.f.stageOps}
+	ref := &reference{dump: node.Dump(img), floor: floor, commits: r.f.commits, ops: r.f.ops, stageCommits: map[int]int{}, commitsOf: map[int][]int{}, opsOf: r.f.stageOps}
 	for i, s := range r.f.commitStage {
 		if s >= 0 {
 			ref.stageCommits[s]++
@@ -222,7 +257,7 @@ func (k *realCase) reference(fl flags) *reference {
 		}
 	}
 	// informational: is the migrated image byte-identical to the native one (modulo schema bookkeeping and the head-state consolidation)?
-	if !fl.newState {
+	if !fl.newState && !pruned {
 		nd := map[string]string{}
 		for key, v := range ref.dump {
 			if key[0] != byte(db.SchemaMetadata) {
@@ -293,9 +328,16 @@ func (k *realCase) checkRun(r *run, what string) {
 // checkImage: on any image a later process may find, "applied" implies the migration's post-condition, no
 // intermediate state is left for an applied migration, and only migrations that actually returned (nil,nil)
 // (or were applied before the scenario) are recorded.
-func (k *realCase) checkImage(img *memory.Database, completed migration.SchemaVersion, what string) migration.SchemaMetadata {
+//
+// prunerEntered: the history-prune migration was handed control in this or an earlier lifetime. Before that the
+// image must retain exactly the blocks the generated database retained; from then on the oracles range over the
+// blocks at or above the image's ACTUAL retention floor, which must not exceed the documented one. While the
+// history-prune migration is unfinished the hash-keyed reverse lookups are not demanded (postBlockTransactionsFrom).
+func (k *realCase) checkImage(img *memory.Database, completed migration.SchemaVersion, prunerEntered bool, retained uint64, what string) migration.SchemaMetadata {
 	c, o := k.c, k.o
 	md, inter := readMeta(img, nRealMigrations)
+	floor := k.retention(img, prunerEntered, retained, what)
+	lookups := !prunerEntered || md.CurrentVersion.Has(idxHistoryPruner)
 	for idx := 0; idx < nRealMigrations; idx++ {
 		if !md.CurrentVersion.Has(uint8(idx)) {
 			continue
@@ -306,11 +348,30 @@ func (k *realCase) checkImage(img *memory.Database, completed migration.SchemaVe
 		if _, ok := inter[idx]; ok {
 			c.Violation("applied-with-intermediate-state", "%s: migration %d is applied and still has intermediate state %x", what, idx, inter[idx])
 		}
-		if msg := o.postcondition(idx, img); msg != "" {
-			c.Violation(fmt.Sprintf("applied-but-unfinished-%d", idx), "%s: migration %d is recorded as applied but its post-condition does not hold: %s", what, idx, msg)
+		if msg := o.postconditionFrom(idx, img, floor, lookups); msg != "" {
+			c.Violation(fmt.Sprintf("applied-but-unfinished-%d", idx), "%s: migration %d is recorded as applied but its post-condition does not hold (retention floor of the image %d): %s", what, idx, floor, msg)
 		}
 	}
 	return md
+}
+
+// retention returns the block number from which on the oracles demand every block of img, and checks it.
+func (k *realCase) retention(img *memory.Database, prunerEntered bool, retained uint64, what string) uint64 {
+	c, o := k.c, k.o
+	if len(o.blocks) == 0 {
+		return 0
+	}
+	f := o.imgFloor(img)
+	if !prunerEntered {
+		if f != o.pruned {
+			c.Violation("blocks-lost-without-pruning", "%s: the oldest retained block is %d, the previous-layout database retained everything from %d on and the history-prune migration never ran", what, f, o.pruned)
+		}
+		return o.pruned
+	}
+	if bound := o.docFloor(retained); f > bound {
+		c.Violation("pruned-beyond-documented-floor", "%s: the oldest retained block is %d; --prune-mode=%d with L1 head %s and local head %d keeps everything from block %d on", what, f, retained, o.l1Desc(), len(o.blocks)-1, bound)
+	}
+	return f
 }
 
 // checkRefusals: on this image, a binary lacking an applied migration and a configuration disabling a
@@ -367,20 +428,28 @@ type interruption struct {
 
 func (i interruption) String() string { return fmt.Sprintf("%s@%d", i.kind, i.k) }
 
+// toggles says from which restart on each optional flag is given (run index; 0 = from the first start).
+type toggles struct {
+	nsFrom    int // --new-state
+	pruneFrom int // --prune-mode
+}
+
 // scenario: first interruption (enumerated) on the base image, then drawn further interruptions, until an
-// uninterrupted run under the final flags completes. nsFrom = index of the first run with --new-state enabled.
-func (k *realCase) scenario(first interruption, extra []interruption, final flags, nsFrom int, g gate) {
+// uninterrupted run under the final flags completes. An optional flag of `final` is given from restart tg.*From on
+// (opting in later is legal, opting out is refused and checked by checkRefusals).
+func (k *realCase) scenario(first interruption, extra []interruption, final flags, tg toggles, g gate) {
 	c, o := k.c, k.o
 	img := o.base.Copy()
 	completed := o.preset
 	plan := append([]interruption{first}, extra...)
-	desc := fmt.Sprintf("%s DB, %d blocks (pruned %d, txs %v), final %s, %s", o.shape, len(o.blocks), o.pruned, o.txCounts, final, g)
+	desc := fmt.Sprintf("%s DB, %d blocks (pruned %d, txs %v, L1 head %s), final %s (new-state from run %d, prune from run %d), %s", o.shape, len(o.blocks), o.pruned, o.txCounts, o.l1Desc(), final, tg.nsFrom, tg.pruneFrom, g)
+	prunerEntered := false // the history-prune migration was handed control in some lifetime so far
+	firstHit := -2         // migration the first interruption landed in
 	for r := 0; ; r++ {
 		if r > len(plan)+3 {
 			c.Violation("no-progress", "%s: plan %v: the upgrade did not complete after %d uninterrupted restarts", desc, plan, r-len(plan))
 		}
-		fl := final
-		fl.newState = final.newState && r >= nsFrom
+		fl := k.flagsAt(final, tg, r)
 		var in interruption
 		if r < len(plan) {
 			in = plan[r]
@@ -393,6 +462,10 @@ func (k *realCase) scenario(first interruption, extra []interruption, final flag
 			cancelAt = in.k
 		}
 		what := fmt.Sprintf("%s: plan %v, run %d (%s, %s)", desc, plan, r, fl, in)
+		floorBefore := uint64(0)
+		if len(o.blocks) > 0 {
+			floorBefore = o.imgFloor(img)
+		}
 		res := runOnce(img, k.net, fl, crashAt, cancelAt, g)
 		if res.f.gateTimedOut {
 			c.Info("gate-timeouts")
@@ -410,8 +483,9 @@ func (k *realCase) scenario(first interruption, extra []interruption, final flag
 			}
 		}
 		if r == 0 && (res.crashed || res.cancelled) {
-			ref := k.reference(k.flagsAt(final, nsFrom, 0))
+			ref := k.reference(k.flagsAt(final, tg, 0))
 			hs := res.f.hitStage
+			firstHit = hs
 			inside := hs >= 0 && res.f.hitStageCommits >= 1 && res.f.hitStageCommits < ref.stageCommits[hs]
 			if inside {
 				c.NonTrivial(fmt.Sprintf("%s-inside-migration-%d", in.kind, hs))
@@ -422,11 +496,45 @@ func (k *realCase) scenario(first interruption, extra []interruption, final flag
 			}
 		}
 		img = res.f.image()
+		if res.entered(idxHistoryPruner) {
+			if !prunerEntered && tg.pruneFrom > 0 && (firstHit == idxBlockTransactions || firstHit == idxStateDiffLength) {
+				// opted into at a later restart than the one in which that migration was interrupted
+				c.Labelf("prune:opted-into-after-the-restart-that-interrupted-migration-%d", firstHit)
+			}
+			if (res.crashed || res.cancelled) && res.f.hitStage == idxHistoryPruner {
+				c.Label("prune:history-prune-migration-itself-interrupted")
+			}
+			prunerEntered = true
+		}
+		if len(o.blocks) > 0 {
+			if floorAfter := o.imgFloor(img); floorAfter > floorBefore {
+				c.Label("prune:history-prune-migration-deleted>=1-block")
+				c.Info("prune-runs-that-deleted-blocks")
+				// the resume checkpoint an interrupted state-diff-length backfill left in an earlier lifetime (next block to
+				// fill) now lies below the oldest retained block
+				if st, ok := res.startInter[idxStateDiffLength]; ok && len(st) == 8 {
+					if cp := binary.BigEndian.Uint64(st); cp > 0 && cp < floorAfter {
+						c.NonTrivial("backfill-checkpoint-below-the-floor-pruned-afterwards")
+						c.Info("prune-above-backfill-checkpoint")
+						if res.entered(idxStateDiffLength) {
+							c.Label("prune:backfill-resumed-in-the-lifetime-that-pruned-above-its-checkpoint")
+						}
+					}
+				}
+			}
+		}
 		if res.crashed && o.btOverwriteClass(img) {
 			c.Label("crash-image:later-range-committed-before-earlier")
 			if stats.Known(keyBTOverwrite) {
 				// known finding: resuming from this image empties the already migrated later range
 				c.Excluded(keyBTOverwrite)
+				return
+			}
+		}
+		if (res.crashed || res.cancelled) && o.staleStagerClass(img) {
+			c.Label("restart-image:stale-stager-checkpoint-over-unstaged-history")
+			if stats.Known(keyPruneStaleStager) {
+				c.Excluded(keyPruneStaleStager)
 				return
 			}
 		}
@@ -437,7 +545,7 @@ func (k *realCase) scenario(first interruption, extra []interruption, final flag
 				return
 			}
 		}
-		md := k.checkImage(img, completed, what)
+		md := k.checkImage(img, completed, prunerEntered, final.retained, what)
 		if res.crashed {
 			c.Info("crash-points")
 		} else if res.cancelled {
@@ -447,19 +555,36 @@ func (k *realCase) scenario(first interruption, extra []interruption, final flag
 			k.checkRefusals(img, md, what)
 		}
 		if !res.crashed && !res.cancelled && fl == final {
-			// completed: the final image must be the image of the uninterrupted upgrade
+			// completed: the final image must be the image of the uninterrupted upgrade (under the final flags).
+			// Byte-for-byte equality is demanded also when --prune-mode / --new-state were switched on at a later
+			// restart: measured on the unchanged tree (seeds 1-5, ~1600 toggled cases) it holds, because whatever an
+			// earlier lifetime wrote for blocks that are pruned afterwards (filled-in commitments, combined transaction
+			// entries, reverse lookups) is keyed by the block and deleted with it, the history buckets of the retained
+			// blocks are rebuilt from their own content, and the scratch namespace is wiped before completion.
 			ref := k.reference(final)
 			got := node.Dump(img)
 			if !sameDump(got, ref.dump) {
 				detail := ""
+				floor := o.pruned
+				if prunerEntered && len(o.blocks) > 0 {
+					floor = o.imgFloor(img)
+				}
 				for _, idx := range []int{idxBlockTransactions, idxHeadState, idxStateDiffLength} {
 					if md.CurrentVersion.Has(uint8(idx)) {
-						if msg := o.postcondition(idx, img); msg != "" {
+						if msg := o.postconditionFrom(idx, img, floor, true); msg != "" {
 							detail += fmt.Sprintf("\n  post-condition of migration %d violated: %s", idx, msg)
 						}
 					}
 				}
 				c.Violation("final-image-differs", "%s: the completed upgrade differs from the uninterrupted one in %d+ keys:\n  %s%s", what, len(dumpDiff(ref.dump, got, 50)), strings.Join(dumpDiff(ref.dump, got, 4), "\n  "), detail)
+			}
+			if prunerEntered && tg.pruneFrom > 0 {
+				// pruning was switched on at a later restart: besides being the reference image, the completed image itself
+				// answers the Reader API like the natively written database for every retained block
+				floor := o.imgFloor(img)
+				if d := o.readerAPIAboveFloor(img, floor, 3); len(d) > 0 {
+					c.Violation("reader-api-differs", "%s: after the completed upgrade (floor now %d) the Reader API differs from the natively written database:\n%s", what, floor, strings.Join(d, "\n"))
+				}
 			}
 			c.Info("scenarios-completed")
 			return
@@ -467,9 +592,13 @@ func (k *realCase) scenario(first interruption, extra []interruption, final flag
 	}
 }
 
-func (k *realCase) flagsAt(final flags, nsFrom, r int) flags {
+func (k *realCase) flagsAt(final flags, tg toggles, r int) flags {
 	fl := final
-	fl.newState = final.newState && r >= nsFrom
+	fl.newState = final.newState && r >= tg.nsFrom
+	fl.prune = final.prune && r >= tg.pruneFrom
+	if !fl.prune {
+		fl.retained = 0
+	}
 	return fl
 }
 
@@ -489,44 +618,90 @@ func sdlWorkers() int { return min(runtime.GOMAXPROCS(0), 8) }
 
 func TestPropRealMigrations(t *testing.T) {
 	stats.Check(t, stats.Budget{Quick: 100, Thorough: 200},
-		"generated chain (0-26 quick / 0-45 thorough blocks, empty blocks, leading empty runs, sizes around the 10-block batch boundaries) stored through Blockchain.Store, converted back to the previous layout "+
-			"(per-tx buckets via txlayout, commitments without StateDiffLength; 1/4: prefix pruned by pruner.PruneUpto with migrations 0,1 pre-applied); real Runner with the node's registry; reference = uninterrupted run; "+
-			"then crash after commit k / cancel at DB operation k (quick: <= 8 drawn k; thorough: every k) followed by 0-2 drawn further interruptions, --new-state enabled from a drawn restart on; "+
-			"non-trivial = the first interruption landed strictly inside a migration (after its first commit, before its last)",
+		"generated chain (0-26 quick / 0-45 thorough blocks, empty blocks, leading empty runs, sizes around the 10-block batch boundaries) stored through Blockchain.Store, L1 head record none/behind/equal/ahead of the local head, converted back to the previous layout "+
+			"(per-tx buckets via txlayout, commitments without StateDiffLength; 1/4: prefix pruned by pruner.PruneUpto with migrations 0,1 pre-applied); real Runner with the node's registry, the history-prune migration built with a drawn --prune-mode value (0,1,2,5,> chain; minAge 0); reference = uninterrupted run; "+
+			"then crash after commit k / cancel at DB operation k (quick: <= 8 drawn k; thorough: every k) followed by 0-2 drawn further interruptions, --new-state and --prune-mode each enabled from a drawn restart (0,1,2) on; 1/6 of the cases: forced skeleton "+
+			"(no pruning + cancellation inside the state-diff-length backfill, pruning with a small retention from the next restart on); "+
+			"non-trivial = the first interruption landed strictly inside a migration (after its first commit, before its last), or the resume checkpoint of an interrupted backfill was left below the retention floor established by the history-prune migration at a later restart",
 		func(rt *rapid.T, c *stats.Case) {
-			o := buildOldDB(rt, c)
+			// forced skeleton (1/6): run 0 without pruning, cancelled inside the state-diff-length backfill; from run 1 on
+			// --prune-mode with a retention small enough that the floor lies above the backfill's checkpoint
+			skel := rapid.IntRange(0, 5).Draw(rt, "skeleton") == 0
+			opts := dbOpts{fixedN: -1}
+			if skel {
+				opts.minBlocks, opts.oldLayout, opts.l1Near = 12, true, true
+			}
+			o := buildOldDBOpts(rt, c, opts)
 			k := &realCase{rt: rt, c: c, o: o, net: o.u.Net, ref: map[flags]*reference{}}
 			final := flags{prune: o.shape == "pruned", newState: rapid.IntRange(0, 2).Draw(rt, "newstate") > 0}
-			nsFrom := 0
+			var tg toggles
 			if final.newState {
-				nsFrom = rapid.IntRange(0, 2).Draw(rt, "newstate-from-run")
+				tg.nsFrom = rapid.IntRange(0, 2).Draw(rt, "newstate-from-run")
 			}
-			c.Fp("final %s nsFrom %d", final, nsFrom)
-			c.Labelf("new-state:%v/from-run-%d", final.newState, nsFrom)
-			ref0 := k.reference(k.flagsAt(final, nsFrom, 0))
-			k.reference(final)
+			nb := len(o.blocks)
+			switch {
+			case o.shape == "pruned":
+				// migrations 0,1 are applied: --prune-mode stays on (opting out is refused), the migration never runs again
+			case skel:
+				final.prune, tg.pruneFrom = true, 1
+				final.retained = uint64(rapid.IntRange(0, 2).Draw(rt, "retained-small"))
+				c.Label("skeleton:cancel-in-backfill-then-prune")
+			case o.l1Head != nil:
+				// the node makes sure an L1 head record exists before it runs the migrations with --prune-mode
+				// (fetchL1HeadIfMissing): pruning is drawn only for databases that have one
+				if final.prune = rapid.IntRange(0, 2).Draw(rt, "prune") > 0; final.prune {
+					tg.pruneFrom = rapid.IntRange(0, 2).Draw(rt, "prune-from-run")
+					final.retained = rapid.SampledFrom([]uint64{0, 1, 2, 5, uint64(nb) + 3}).Draw(rt, "retained")
+				}
+			}
+			c.Fp("final %s nsFrom %d pruneFrom %d", final, tg.nsFrom, tg.pruneFrom)
+			c.Labelf("new-state:%v/from-run-%d", final.newState, tg.nsFrom)
+			if o.shape != "pruned" {
+				c.Labelf("prune:%v/from-run-%d", final.prune, tg.pruneFrom)
+				if final.prune {
+					rl := fmt.Sprint(final.retained)
+					if final.retained > uint64(nb) {
+						rl = ">chain"
+					}
+					c.Labelf("prune:retained-%s", rl)
+					if o.docFloor(final.retained) > 0 {
+						c.Label("prune:documented-floor>0")
+					} else {
+						c.Label("prune:nothing-to-prune")
+					}
+					if final.newState {
+						c.Label("prune:combined-with-new-state")
+					}
+				}
+			}
+			ref0 := k.reference(k.flagsAt(final, tg, 0))
+			refF := k.reference(final)
 			c.Labelf("commits-in-reference:%s", bucketOf(ref0.commits))
+			// later lifetimes may run migrations the first one did not (flags enabled later): extra interruptions range
+			// over the longer of the two uninterrupted upgrades
+			maxCommits, maxOps := max(ref0.commits, refF.commits), max(ref0.ops, refF.ops)
 
 			drawExtra := func() []interruption {
 				n := rapid.IntRange(0, 2).Draw(rt, "extra-interruptions")
 				out := make([]interruption, n)
 				for i := range out {
 					if rapid.Bool().Draw(rt, "extra-kind") {
-						out[i] = interruption{"crash", 1 + gen.Uniform(rt, ref0.commits, "extra-crash")}
+						out[i] = interruption{"crash", 1 + gen.Uniform(rt, maxCommits, "extra-crash")}
 					} else {
-						out[i] = interruption{"cancel", 1 + gen.Uniform(rt, ref0.ops, "extra-cancel")}
+						out[i] = interruption{"cancel", 1 + gen.Uniform(rt, maxOps, "extra-cancel")}
 					}
 				}
 				return out
 			}
 			type point struct {
 				in    interruption
-				stage int // migration the point was aimed at (-1: anywhere)
+				stage int  // migration the point was aimed at (-1: anywhere)
+				skel  bool // point of the forced skeleton
 			}
 			var firsts []point
 			if stats.Thorough() {
 				for i := 1; i <= ref0.commits; i++ {
-					firsts = append(firsts, point{interruption{"crash", i}, r0stage(ref0, i)})
+					firsts = append(firsts, point{interruption{"crash", i}, r0stage(ref0, i), false})
 				}
 				for i := 1; i <= ref0.ops; i++ {
 					st := -1
@@ -535,11 +710,19 @@ func TestPropRealMigrations(t *testing.T) {
 							st = s
 						}
 					}
-					firsts = append(firsts, point{interruption{"cancel", i}, st})
+					firsts = append(firsts, point{interruption{"cancel", i}, st, false})
 				}
 			} else {
 				n := rapid.IntRange(4, 8).Draw(rt, "npoints")
 				for i := 0; i < n; i++ {
+					if rg, ok := ref0.opsOf[idxStateDiffLength]; skel && ok && i < (n+1)/2 {
+						// skeleton: cancel while the backfill is still in the blocks below the floor that will be established
+						// (it reads ~3 database operations per block after 2 initial ones)
+						span := 3 * max(int(o.docFloor(final.retained))-1, 1)
+						kk := min(rg[0]+2+gen.Uniform(rt, span, "skeleton-cancel-k"), max(rg[1], rg[0]))
+						firsts = append(firsts, point{interruption{"cancel", kk}, idxStateDiffLength, true})
+						continue
+					}
 					// aim 3 of 4 points at the inside of a migration that ran in the reference
 					st := -1
 					if len(ref0.stages) > 0 && rapid.IntRange(0, 3).Draw(rt, "aim") > 0 {
@@ -550,17 +733,16 @@ func TestPropRealMigrations(t *testing.T) {
 						if cs := ref0.commitsOf[st]; st >= 0 && len(cs) > 0 {
 							k = cs[gen.Uniform(rt, len(cs), "crash-k-in-stage")]
 						}
-						firsts = append(firsts, point{interruption{"crash", k}, st})
+						firsts = append(firsts, point{interruption{"crash", k}, st, false})
 					} else {
 						k := 1 + gen.Uniform(rt, ref0.ops, "cancel-k")
 						if rg, ok := ref0.opsOf[st]; ok && rg[1] >= rg[0] {
 							k = rg[0] + gen.Uniform(rt, rg[1]-rg[0]+1, "cancel-k-in-stage")
 						}
-						firsts = append(firsts, point{interruption{"cancel", k}, st})
+						firsts = append(firsts, point{interruption{"cancel", k}, st, false})
 					}
 				}
 			}
-			nb := len(o.blocks)
 			drawGate := func(aim int) gate {
 				if nb == 0 {
 					return noGate
@@ -587,17 +769,24 @@ func TestPropRealMigrations(t *testing.T) {
 				}
 			}
 			for _, f := range firsts {
-				extra := drawExtra()
-				g := drawGate(f.stage)
+				var extra []interruption
+				g := noGate
+				if f.skel && rapid.Bool().Draw(rt, "skeleton-plain") {
+					// plain skeleton: one cancellation, then uninterrupted restarts
+				} else {
+					extra = drawExtra()
+					g = drawGate(f.stage)
+				}
 				c.Fp("%s %v %s", f.in, extra, g)
 				if g.stage >= 0 {
 					c.Labelf("gate:migration-%d", g.stage)
 				}
-				k.scenario(f.in, extra, final, nsFrom, g)
+				k.scenario(f.in, extra, final, tg, g)
 			}
 			c.Sample(func() any {
-				return map[string]any{"shape": o.shape, "blocks": len(o.blocks), "pruned_prefix": o.pruned, "tx_counts": o.txCounts,
-					"final_flags": final.String(), "new_state_from_run": nsFrom, "reference_commits": ref0.commits, "reference_db_ops": ref0.ops,
+				return map[string]any{"shape": o.shape, "blocks": len(o.blocks), "pruned_prefix": o.pruned, "tx_counts": o.txCounts, "l1_head": o.l1Desc(),
+					"final_flags": final.String(), "new_state_from_run": tg.nsFrom, "prune_from_run": tg.pruneFrom, "documented_floor": o.docFloor(final.retained),
+					"floor_of_reference_image": refF.floor, "reference_commits": ref0.commits, "reference_db_ops": ref0.ops,
 					"commits_per_migration": ref0.stageCommits, "first_interruptions": len(firsts)}
 			})
 		})
